@@ -100,6 +100,7 @@ fn depth_of(s: &Schema, leaf_null: bool) -> Option<usize> {
         Schema::Null if leaf_null => Some(0),
         Schema::Boolean if !leaf_null => Some(0),
         Schema::Array(a) => depth_of(&a.items, leaf_null).map(|d| d + 1),
+        Schema::Map(m) => depth_of(&m.types, leaf_null).map(|d| d + 1),
         _ => None,
     }
 }
@@ -231,7 +232,9 @@ fn prepare(o: &Op) -> Prepared {
         (false, "fieldNameValidator") => Prepared::Parse(format!(
             r#"{{"type":"record","name":"x","fields":[{{"name":"fd{k}","type":"int"}}]}}"#
         )),
-        (false, "comparator") => Prepared::UseCmp(nest(Schema::Null, k), nest(Schema::Boolean, k)),
+        // the two schemas of a marker pair are of DIFFERENT kinds at the top (array vs map): whether they are
+        // "equal" is for the comparator in force to say, whatever their kinds
+        (false, "comparator") => Prepared::UseCmp(nest(Schema::Null, k), if k == 0 { Schema::Boolean } else { Schema::map(nest(Schema::Boolean, k - 1)).build() }),
         _ => unreachable!(),
     }
 }
